@@ -9,7 +9,19 @@ from ..runner import Outcome
 from . import common
 
 ID = "C01"
+ENGINE = "single-node-history"
 LEVEL = "exploration"
+DESIGN_REF = "DESIGN.md section 4 (C01), 3.1, 3.5"
+TECHNIQUE = "deterministic simulation: seeded event histories (gradient presence, scheduler writes) against the real optimizer, per-step refinement vs float64 reference model"
+LEVEL_TEXT = (
+    "Seeded search over configurations x block layouts x event histories; every step of every run is checked block by "
+    "block (parameters and all checkpointable state) against an independent float64 model advanced from the actual "
+    "pre-state, so errors never accumulate and cross-wiring is pinned. Sampling, not proof: a clean batch is evidence."
+)
+LEVEL_NOTE = (
+    "Trusted: torch CPU kernels, the reference model (written from the README/docstrings), the tolerance policy of "
+    "DESIGN 3.5. Single rank, so there is no schedule dimension; fault dimension is absent gradients and hyper-parameter writes."
+)
 BUDGET = {"quick": 50.0, "thorough": 600.0}
 RULE = (
     "seeded generation of (configuration x parameter set x param groups x event history); every run drives the real "
